@@ -3,6 +3,7 @@ import json, os, random, re
 import vcheck as V
 from checks import route_common as RC
 from checks import c03
+from checks import simplify
 
 PID = 'C10'
 NT = os.path.join(V.SPEC, 'avoid', 'Nudge.tla')
@@ -298,6 +299,8 @@ def main(tier):
             vd.violation('assertion:vsit->second->id!=freeSegmentID', 'design model NudgeRanges.tla: variables %s, unsatisfied %s -> ranges %s: %s' % (st.get('vs'), st.get('unsat'), st.get('ranges'), st.get('bad')), st)
         elif inv == 'LeftBeforeRight':
             vd.violation('assertion:vsi-1->id==channelLeftID', 'design model NudgeRanges.tla: variables %s, unsatisfied %s: %s' % (st.get('vs'), st.get('unsat'), st.get('bad')), st)
+    # ---- beyond the statement: Polygon::simplify() and the checkpoint cache nudging relies on (Simplify.tla)
+    simplify.stage(ev, vd, V.rundir('c10simp'), tier == 'quick')
     ev.cov['evaluations'] = len(recs)
     ev.cov['distinct_nontrivial'] = nontriv
     ev.cov['traces_validated_against_impl'] = len(recs)
